@@ -20,7 +20,7 @@ SR = stoppers.DaemonStoppingReason
 
 
 @harness('D3n', targets=['kopf._core.engines.daemons.daemon_killer', 'kopf._core.reactor.inventory.ResourceMemories.iter_all_daemon_memories'],
-         props=['C09', 'C20', 'C13'],
+         props=['C20', 'C13'], sizes_only=True,
          clauses=['killer.ends_by_cancellation_only', 'killer.exit_stops_every_running_daemon',
                   'killer.pause_stops_every_running_daemon', 'killer.waits_then_closes', 'killer.stoppers_only_for_known_daemons'],
          canaries=['canary.nobody_interferes', 'canary.never_closes'],
